@@ -1,9 +1,12 @@
 (* C12 — third-order response: orientational average, invariances, additivity.
-   Statements only; proofs in Proofs/C12.v, C12paths.v, C12ico.v, C12ref.v; model in Model/C12.v.
+   Statements only; proofs in Proofs/C12.v, C12paths.v, C12ico.v, C12ref.v, C12obj.v, C12gen.v; model in Model/C12.v, C12x.v.
    Scalars are the elements of an arbitrary commutative ring (the reals in particular); the line-shape
    function [L], the sign test [neg] and the calculator's default width are arbitrary; [th] stands for 1/30. *)
 From Coq Require Import ZArith List Bool.
-From QV Require Import Base.Alg Model.C19 Model.C12 Proofs.C12 Proofs.C12paths Proofs.C12ico Proofs.C12ref.
+From Coq Require String.
+Import String.StringSyntax.
+Delimit Scope string_scope with string.
+From QV Require Import Base.Alg Model.C19 Model.C12 Model.C12x Proofs.C12 Proofs.C12paths Proofs.C12ico Proofs.C12ref Proofs.C12obj Proofs.C12gen.
 Import ListNotations.
 
 (* the prefactor formula F4e.M4.F4n does not change when ALL dipoles, or ALL polarisations, are transformed by
@@ -125,6 +128,44 @@ Theorem c12_lorentzian_unequal_dephasing_refuted :
    response L neg 1%Z false FM (gen4 (monomer om dip wd ga (fun _ => true) 1)))%Z.
 Proof. exact lorentz_unequal_refuted. Qed.
 Print Assumptions c12_lorentzian_unequal_dephasing_refuted.
+
+(* the pathway OBJECT (Model/C12x.v: liouville_pathway.__init__ / add_transition / add_transfer / set_evolution_factor /
+   build as a state machine, arrays as functions with point updates, every raise - consistency check or index outside an
+   array - a None) run on a well-formed program of calls (third order, four transitions with sides +1/-1 and intervals
+   below 4 of which one names an interval, as many transfers as relax_order, every transfer declared to start from the
+   state the diagram is in) returns exactly the closed-form pathway [mkpath] the other theorems are about when the
+   "has to start from the current state" checks pass, and raises otherwise *)
+Theorem c12_object_run_is_closed_form : forall (R : StarRing) (Sy : @sys R) (c : xcall) (ops : list (@xop R)),
+  c_order c = 3%nat -> xwf c ops = true ->
+  xpath Sy c ops = if ev_ok (erase ops) (c_sinit c, 0%nat) then Some (xleaf (mkpath Sy) c ops) else None.
+Proof. intros R Sy c ops Ho Hw. exact (xpath_is_mkpath Sy c Ho ops Hw). Qed.
+Print Assumptions c12_object_run_is_closed_form.
+
+(* when the only electronic ground state is state 0 (aggregates of two-level molecules: the quantifier of the property),
+   no pathway construction of the six generators fails, so their exception handlers (two of which swallow the exception
+   and leave the innermost loop) are never entered *)
+Theorem c12_no_pathway_construction_fails : forall (R : StarRing) (Sy : @sys R), ground0 Sy ->
+  Forall (fun p => pw_ok p = true) (gen6 Sy) /\ Forall (fun p => pw_ok p = true) (gen4 Sy).
+Proof. intros R Sy H. split; [now apply gen6_all_ok|now apply gen4_all_ok]. Qed.
+Print Assumptions c12_no_pathway_construction_fails.
+
+(* non-vacuity: a well-formed program that runs, the same program started from ground state 1 (the constructor leaves
+   current[1] = 0, so the first interaction from the right raises), a transfer beyond relax_order is not well formed,
+   and the uncoupled aggregates have state 0 as their only ground state *)
+Example c12_example_object_runs :
+  let Sy := usys (R:=ZR) 2 (fun a => Z.of_nat a + 9)%Z (fun a => (1, Z.of_nat a, 0)%Z) (fun _ => 1%Z) (fun _ => 1%Z) (fun _ _ => 1%Z) (fun _ => true) in
+  let prog (g : nat) : list (@xop ZR) := [@XT ZR 1 g (-1) 1 5 7; @XT ZR 2 g 1 0 (-1) (-1); @XX ZR 2 1 2 1; @XE ZR 3; @XT ZR g 1 (-1) 0 (-1) (-1); @XT ZR g 2 1 3 6 8]%Z in
+  let c (g : nat) := mkCall "R"%string g 3 "R2g"%string 1 1 in
+  xwf (c 0%nat) (prog 0%nat) = true /\
+  (exists p, xpath Sy (c 0%nat) (prog 0%nat) = Some p /\ pw_freq p = [-9; 1; 1; 10; 0]%Z /\ pw_sign p = 1%Z /\ pw_evf p = 3%Z /\ pw_w3 p = 6%Z) /\
+  xwf (c 1%nat) (prog 1%nat) = true /\ xpath Sy (c 1%nat) (prog 1%nat) = None /\
+  xwf (mkCall "R"%string 0 3 "R2g"%string 0 1) (prog 0%nat) = false /\ xpath Sy (mkCall "R"%string 0 3 "R2g"%string 0 1) (prog 0%nat) = None /\
+  ground0 Sy.
+Proof.
+  cbv zeta. split; [reflexivity|]. split; [eexists; split; [vm_compute; reflexivity|repeat split]|].
+  split; [reflexivity|]. split; [reflexivity|]. split; [reflexivity|]. split; [reflexivity|].
+  intros g [<-|[]]. reflexivity.
+Qed.
 
 (* non-vacuity: <x x x x> = 1/5 and <x x y y> = 1/15 (times 30), a non-trivial orthogonal matrix, the number of pathways
    of an uncoupled dimer, and a cross peak that is present without excited-state absorption *)
